@@ -150,7 +150,9 @@ impl IndicatorInstance for WoodiesCCIInstance {
 		}
 
 		#[allow(clippy::cast_possible_wrap)]
-		let s1 = (self.s1_count.abs() == self.cfg.s1_lag as isize) as i8 * s1_cross;
+		// the trend CCI has now stayed on one side of the zero line for `s1_lag` bars
+		let s1 = (self.s1_count == self.cfg.s1_lag as isize) as i8
+			- (self.s1_count == -(self.cfg.s1_lag as isize)) as i8;
 
 		IndicatorResult::new(&[turbo, trend], &[s1.into()])
 	}
